@@ -13,9 +13,9 @@
    [exhausted next e] says that every further call from e returns false.  [StronglySorted lt l]
    is "in the documented order" (and, the order being strict, "each once" — also stated as
    [NoDup l]); [In x l <-> F x] is "exactly the advertised family". *)
-From Coq Require Import List ZArith Arith Bool Sorted Permutation.
+From Coq Require Import List ZArith Arith Bool Lia Sorted Permutation.
 From Mamba Require Import Iter.Model Iter.Enum Iter.Lex Iter.Product Iter.ProductRP Iter.Comb Iter.Colex
-  Iter.AlgX Iter.AlgXRun Iter.Pattern Iter.PatternRun Iter.AlgXFilter.
+  Iter.AlgX Iter.AlgXRun Iter.Pattern Iter.PatternRun Iter.AlgXFilter Iter.Part Iter.PartBlocks Iter.SetPartSurj.
 Import ListNotations.
 Open Scope Z_scope.
 
@@ -117,6 +117,23 @@ Theorem C15_permutations_by_pattern_is_filter : forall f n,
 Proof. exact pattern_is_filter. Qed.
 Print Assumptions C15_permutations_by_pattern_is_filter.
 
+(* Partitions(n), n >= 1, completeness with respect to ALL set partitions (complements
+   C15_partitions_rgs / C15_partitions_value of Props/C15_part2.v): the values returned by
+   Value() are [map rgs_blocks lr] for a duplicate-free list lr of restricted growth strings,
+   and for every set partition p of {0..n-1} - given in any representation: blocks and elements
+   in any order - exactly one string of lr has a value that is the same partition as p
+   ([same_partition]: the same pairs i, j lie in a common block). *)
+Theorem C15_partitions_every_set_partition_once : forall n', exists s0, parts_init (S n') = Some s0 /\
+  exists lr e,
+    (forall fuel, (length lr < fuel)%nat ->
+       drain parts_next parts_value fuel s0 = Some (map rgs_blocks lr, e)) /\
+    NoDup lr /\ exhausted parts_next e /\
+    forall p, is_setpart (S n') p ->
+      exists r, In r lr /\ (exists p', rgs_blocks r = Some p' /\ same_partition (S n') p p') /\
+        forall r2 p2, In r2 lr -> rgs_blocks r2 = Some p2 -> same_partition (S n') p p2 -> r2 = r.
+Proof. exact parts_every_setpart_once. Qed.
+Print Assumptions C15_partitions_every_set_partition_once.
+
 (* ------------------------------------------------------------------ non-vacuity *)
 
 Example C15_product_nonvacuous :
@@ -174,4 +191,20 @@ Proof.
   eexists. eexists. split; [vm_compute; reflexivity|]. split; [reflexivity|].
   split; [simpl; tauto|]. split; [simpl; tauto|]. simpl. intros H.
   repeat (destruct H as [H|H]; [discriminate|]). exact H.
+Qed.
+
+(* the partition {{3,1},{2,0}} written with blocks and elements out of order is the value of
+   the restricted growth string 0 1 0 1 *)
+Example C15_partitions_every_set_partition_once_nonvacuous :
+  is_setpart 4 [[3;1]; [2;0]] /\ rgs_blocks [0;1;0;1] = Some [[0;2]; [1;3]] /\
+  build [[3;1]; [2;0]] 4 = [0;1;0;1].
+Proof.
+  split; [|split; vm_compute; reflexivity].
+  split; [|split; [|split]].
+  - intros b [<- | [<- | []]]; (split; [discriminate|split; [repeat constructor; simpl; intuition discriminate|]]);
+      intros i Hi; simpl in Hi; intuition (subst; simpl; lia).
+  - intros i Hi. assert (i = 0 \/ i = 1 \/ i = 2 \/ i = 3) as [-> | [-> | [-> | ->]]] by (simpl in Hi; lia);
+      [exists [2;0]|exists [3;1]|exists [2;0]|exists [3;1]]; simpl; auto.
+  - intros b1 b2 i [<- | [<- | []]] [<- | [<- | []]] H1 H2; auto; simpl in H1, H2; exfalso; intuition (subst; discriminate).
+  - repeat constructor; simpl; intuition discriminate.
 Qed.
